@@ -219,6 +219,8 @@ def s_div(a, b):
         if b == 0:
             # x/0 is inf/nan in floating point: modelled as an arbitrary (poison) real; any obligation that can
             # observe it becomes sat and is then decided by replay on the real code
+            if is_conc(a):
+                return NonFinite(float("nan") if a == 0 else math.copysign(float("inf"), float(a)))
             global _DIV0
             _DIV0 += 1
             return z3.Real(f"div0!{_DIV0}")
